@@ -20,14 +20,14 @@ RULE = ('random references (60-400 bp, optional N bases, C/G placed in the first
         'call; distinct = distinct (case seed).')
 ASSUMPTIONS = ['the molecule consensus is the C13 vote restricted to positions whose reference base is the expected convertible base',
                'context letters: CG->z, C[ACT]G->x, C[ACT][ACT]->h, anything truncated by the contig end or containing a non-ACGT base -> "."']
-MIN_NONTRIVIAL = {'quick': 200, 'thorough': 3000}
+MIN_NONTRIVIAL = {'quick': 200, 'thorough': 25000}
 REQUIRED_MONITORS = ['obs:call_dict_entries', 'obs:reads_with_XM', 'ctx:z', 'ctx:x', 'ctx:h', 'ctx:upper', 'ctx:dot', 'edge:contig_end_calls',
                      'strand:reverse', 'convention:F', 'convention:R']
 SHARD_TIMEOUT = {'quick': 900, 'thorough': 5400}
 
 
 def gen_cases(tier, seed):
-    n = 400 if tier == 'quick' else 5000
+    n = 400 if tier == 'quick' else 40000
     return [{'i': i, 'seed': seed} for i in range(n)]
 
 
